@@ -9,7 +9,9 @@ from __future__ import annotations
 
 import random
 
-from common import driver, fr, same_number
+from fractions import Fraction as Fr
+
+from common import driver, fr, impl, same_number
 from dsl import params_json
 from gen import strip
 from props.simcommon import base_out, replay_case, run_panel, sim_cases
@@ -107,6 +109,47 @@ def run_case(case):
                 if not same_number(float(col[ridx]), a[k]):
                     vs.append({"clause": "target column equals the model function at the row", "detail": f"target {name} row {divmod(ridx, n)}: frame {fr(float(col[ridx]))}, model {a[k]}"})
                     break
+    # second call on the *same* function object with other parameters and the same target list: the target columns
+    # must follow the parameters of the current call
+    if targets and not vs:
+        import copy
+        from dsl import params_impl
+        from pipeline import init_impl
+
+        P2 = copy.deepcopy(info["P"])
+        bump = [Fr(3, 4), Fr(5, 4), Fr(-1, 4), Fr(7, 4), Fr(1, 8)]
+        k = 0
+        for f in P2["funcs"]:
+            for p in P2["funcs"][f]:
+                P2["funcs"][f][p] = P2["funcs"][f][p] + bump[k % len(bump)]
+                k += 1
+        if k:
+            try:
+                df2 = info["fns"].simulate(params_impl(P2), initial_states=init_impl(mj, info["init"], int_cont=bool(case.get("int_init"))),
+                                           vf_arr_list=[impl().jnp.asarray(v) for v in info["V"]], seed=info["sim_seed"], additional_targets=targets)
+                from pipeline import frame_rows
+
+                rows2 = frame_rows(df2, mj, n)
+                req_rows = [{"env": [[s, fr(rows2[t][i]["states"][s])] for s, _ in mj["states"]] + [[c, fr(rows2[t][i]["choices"][c])] for c, _ in mj["choices"]], "t": t}
+                            for t in range(T) for i in range(n)]
+                ans2 = driver().call({"op": "eval_funcs", "model": strip(mj), "params": params_json(P2), "names": targets, "rows": req_rows})
+                import numpy as np
+
+                for kk, name in enumerate(targets):
+                    col = np.asarray(df2[name])
+                    for ridx, a in enumerate(ans2):
+                        cells += 1
+                        if a[kk] is not None and not same_number(float(col[ridx]), a[kk]):
+                            vs.append({"clause": "target column equals the model function at the row (second call, other parameters)",
+                                       "detail": f"target {name} row {divmod(ridx, n)}: frame {fr(float(col[ridx]))}, model {a[kk]} (parameters of the second call on the same function object)"})
+                            break
+                    if vs:
+                        break
+                out["hist"]["second_call_other_params"] = 1
+            except Exception as e:  # noqa: BLE001
+                from common import impl_site
+
+                vs.append({"clause": "a second call with other parameters runs", "detail": f"{impl_site(e)}: {str(e)[:200]}"})
     out["evals"] = cells
     out["hist"][f"targets={mode}"] = 1
     for v in vs[:3]:
